@@ -1878,3 +1878,259 @@ func init() {
 		},
 	})
 }
+
+// ---------------------------------------------------------------- stores whose right-hand side changes the array being written
+
+// c15StoreFuncs: user functions that act on the HOME name of array i (a global variable, a
+// member of the document, a member of another container) from inside a call frame
+func c15StoreFuncs(c *c15Gen) []*c09Func {
+	var fs []*c09Func
+	call := func(recv c09Expr, m string, args ...c09Expr) *c09Call { return &c09Call{recv, m, args} }
+	ret := func(e c09Expr) *c09Stmt { return &c09Stmt{kind: "ret", exprs: []c09Expr{e}} }
+	for i, a := range c.arrs {
+		H := a.names[0]
+		fs = append(fs,
+			&c09Func{fmt.Sprintf("grow%d", i), []string{"x"}, []*c09Stmt{c09Do(call(H, "push", c09V("x"))), ret(call(H, "length"))}},
+			&c09Func{fmt.Sprintf("grow2x%d", i), []string{"x"}, []*c09Stmt{c09Do(call(H, "push", c09V("x"))), c09Do(call(H, "push", c09V("x"))), ret(call(H, "length"))}},
+			&c09Func{fmt.Sprintf("drop%d", i), nil, []*c09Stmt{ret(call(H, "pop"))}},
+			&c09Func{fmt.Sprintf("dropf%d", i), nil, []*c09Stmt{c09Do(call(H, "popfirst")), ret(call(H, "length"))}},
+			&c09Func{fmt.Sprintf("srt%d", i), nil, []*c09Stmt{ret(call(call(H, "sort"), "length"))}},
+			&c09Func{fmt.Sprintf("swap%d", i), []string{"x"}, []*c09Stmt{c09Do(call(H, "pop")), c09Do(call(H, "push", c09V("x"))), ret(c09V("x"))}},
+			&c09Func{fmt.Sprintf("fill%d", i), []string{"k", "x"}, []*c09Stmt{c09Do(&c09Asg{c09At(H, c09V("k")), c09V("x")}), ret(call(H, "length"))}},
+		)
+	}
+	for _, f := range fs {
+		c.g.in.funcs[f.name] = f
+	}
+	return fs
+}
+
+// c15StoreRHS: a right-hand side that pushes onto / pops from / sorts / writes into array i
+// (through the name M, or through a user function naming the array's home), or leaves it alone
+func (c *c15Gen) storeRHS(i int, M c09Expr, n int) (c09Expr, string) {
+	r := c.r
+	call := func(recv c09Expr, m string, args ...c09Expr) *c09Call { return &c09Call{recv, m, args} }
+	fn := func(name string, args ...c09Expr) *c09Call { return &c09Call{nil, fmt.Sprintf("%s%d", name, i), args} }
+	V, W := c15Elem(r, c.mode), c15Elem(r, 0)
+	switch r.Intn(22) {
+	case 0:
+		return call(call(M, "push", V), "length"), "push.length"
+	case 1:
+		return call(call(call(M, "push", V), "push", W), "length"), "push.push.length"
+	case 2:
+		return call(call(call(M, "push", V), "push", W), "pop"), "push.push.pop"
+	case 3:
+		return call(M, "push", V), "push (the array into itself)"
+	case 4:
+		return call(M, "pop"), "pop"
+	case 5:
+		return call(M, "popfirst"), "popfirst"
+	case 6:
+		return call(call(M, "sort"), "length"), "sort.length"
+	case 7:
+		return call(M, "sort"), "sort"
+	case 8:
+		return fn("grow", V), "f:push"
+	case 9:
+		return fn("grow2x", V), "f:push push"
+	case 10:
+		return fn("drop"), "f:pop"
+	case 11:
+		return fn("dropf"), "f:popfirst"
+	case 12:
+		return fn("srt"), "f:sort"
+	case 13:
+		return fn("swap", V), "f:pop push"
+	case 14:
+		return &c09Call{nil, "psh", []c09Expr{M, V}}, "param:push"
+	case 15:
+		return &c09Bin{"+", call(call(M, "push", V), "length"), fn("grow", W)}, "push + f:push"
+	case 16:
+		return &c09Asg{c09At(M, c09NumLit(float64(n+r.Intn(3)))), V}, "inner store past the end"
+	case 17:
+		return fn("fill", c09NumLit(float64(n+r.Intn(3))), V), "f:store past the end"
+	case 18:
+		return &c09Bin{"+", call(M, "pop"), call(call(M, "push", V), "length")}, "pop + push.length"
+	case 19:
+		return &c09ArrLit{[]c09Expr{call(call(M, "push", V), "length"), call(M, "length")}}, "[push.length, length]"
+	case 20:
+		return call(call(M, "push", call(M, "pop")), "length"), "push(pop).length"
+	}
+	return V, "plain"
+}
+
+// one store N[k] = RHS with k at / past / just before the end (as the array is when the target is
+// evaluated), then every array with its length
+func (c *c15Gen) stepStore(k int, errOK bool, kinds map[string]int) {
+	r := c.r
+	i := r.Intn(len(c.arrs))
+	N, M := c.name(i), c.name(i)
+	n := c.length(i)
+	var idx float64
+	switch x := r.Float64(); {
+	case x < 0.40:
+		idx = float64(n)
+	case x < 0.60:
+		idx = float64(n + 1)
+	case x < 0.70:
+		idx = float64(n + 2 + r.Intn(2))
+	case x < 0.80 && n > 0:
+		idx = float64(n - 1)
+	case x < 0.88 && n > 0:
+		idx = -1
+	case x < 0.92 && n > 0:
+		idx = float64(-n)
+	case x < 0.95 && errOK:
+		idx = float64(-n - 1)
+	case x < 0.97:
+		idx = float64(n) + 0.5
+	default:
+		idx = float64(r.Intn(n + 1))
+	}
+	rhs, kind := c.storeRHS(i, M, n)
+	kinds[kind]++
+	tag := c09StrLit(fmt.Sprintf("#%d", k))
+	var K c09Expr = c09NumLit(idx)
+	if idx < 0 {
+		K = &c09Par{c09NumLit(idx)}
+	}
+	if idx >= 0 && chance(r, 0.15) {
+		// the index itself computed from the array before the right-hand side runs
+		K = &c09Bin{"+", &c09Call{M, "length", nil}, c09NumLit(idx - float64(n))}
+	}
+	asg := &c09Asg{c09At(N, K), rhs}
+	switch x := r.Float64(); {
+	case x < 0.5:
+		c.add(c09Do(asg))
+	case x < 0.8:
+		c.add(c09Print(tag, asg)) // the value of the assignment expression
+	case x < 0.9:
+		// the target named through a match binding
+		c.add(&c09Stmt{kind: "match", v: "q", exprs: []c09Expr{N}, body: []*c09Stmt{c09Do(&c09Asg{c09At(c09V("q"), K), rhs})}})
+	default:
+		// op= : the target is read, the right-hand side runs, then the store
+		c.add(c09Do(&c09Cmp{c09At(N, K), pick(r, []string{"+", "-"}), rhs}))
+	}
+	for ai := range c.arrs {
+		nm := c.arrs[ai].names[0]
+		if chance(r, 0.3) {
+			nm = pick(r, c.arrs[ai].names)
+		}
+		c.add(c09Print(nm, &c09Call{nm, "length", nil}))
+	}
+}
+
+func c15StoreSequence(r *rand.Rand, mode, steps int, errOK bool) (*c09Prog, string, map[string]int) {
+	c, doc := c15Setup(r, mode)
+	fs := c15StoreFuncs(c)
+	kinds := map[string]int{}
+	for k := 1; k <= steps && !c.dead; k++ {
+		if chance(r, 0.8) {
+			c.stepStore(k, errOK && k > steps/2, kinds)
+		} else {
+			c.step(k, false)
+		}
+	}
+	return &c09Prog{funcs: append(append([]*c09Func{}, c09Helpers...), fs...), body: c.body}, doc, kinds
+}
+
+// the fixed matrix: every kind of target x index relative to the end x right-hand side, the
+// expected output written out from the property's ideal list (the element addressed is the one
+// the index names WHEN THE STORE HAPPENS, i.e. after the right-hand side has run)
+func c15StoreMatrix(emit func(Case)) {
+	type tgt struct{ setup, T, doc string }
+	tgts := []tgt{
+		{"a = [1, 2]", "a", "{}"},
+		{"a = [1, 2]; b = a", "b", "{}"},
+		{"b = [1, 2]; a = b", "b", "{}"},
+		{"", "$.q", `{"q": [1, 2]}`},
+		{"", "$.o.items", `{"o": {"items": [1, 2]}}`},
+		{"", "$.m[0]", `{"m": [[1, 2], 5]}`},
+		{"a = $.q", "a", `{"q": [1, 2]}`},
+		{"ob = {items: [1, 2]}", "ob.items", "{}"},
+		{"w = ['x', [1, 2]]", "w[-1]", "{}"},
+		{"ob = {items: [1, 2]}; a = ob.items", "a", "{}"},
+	}
+	// right-hand sides over the receiver R (the target's own name or the other alias); result
+	// list computed on an ideal list below
+	type rhs struct {
+		text string
+		run  func(l []string) ([]string, string) // the list after the right-hand side ran, and its value
+	}
+	itoa := func(n int) string { return fmt.Sprint(n) }
+	rhss := []rhs{
+		{"R.push(9).length()", func(l []string) ([]string, string) { l = append(l, "9"); return l, itoa(len(l)) }},
+		{"R.push(8).push(9).length()", func(l []string) ([]string, string) { l = append(l, "8", "9"); return l, itoa(len(l)) }},
+		{"R.push(8).push(9).push(7).pop()", func(l []string) ([]string, string) { l = append(l, "8", "9"); return l, "7" }},
+		{"grow(9)", func(l []string) ([]string, string) { l = append(l, "9"); return l, itoa(len(l)) }},
+		{"grow2(9)", func(l []string) ([]string, string) { l = append(l, "9", "9"); return l, itoa(len(l)) }},
+		{"psh(R, 9)", func(l []string) ([]string, string) { l = append(l, "9"); return l, itoa(len(l)) }},
+		{"R.pop()", func(l []string) ([]string, string) { return l[:len(l)-1], l[len(l)-1] }},
+		{"R.popfirst()", func(l []string) ([]string, string) { return l[1:], l[0] }},
+		{"shrink()", func(l []string) ([]string, string) { return l[:len(l)-1], l[len(l)-1] }},
+		{"R.sort().length()", func(l []string) ([]string, string) { return l, itoa(len(l)) }},
+		{"R.push(9).sort().pop()", func(l []string) ([]string, string) { l = append(l, "9"); return l, "9" }},
+		{"7", func(l []string) ([]string, string) { return l, "7" }},
+	}
+	for ti, t := range tgts {
+		other := t.T
+		if t.T == "b" {
+			other = "a"
+		}
+		for _, off := range []int{0, 1, 2, 3} { // index = length + off - 0 at the time the target is evaluated
+			for ri, rh := range rhss {
+				for which, R := range []string{t.T, other} {
+					if which == 1 && (other == t.T || ri%2 == 1) {
+						continue
+					}
+					idx := 2 + off
+					list, val := rh.run([]string{"1", "2"})
+					list = append([]string{}, list...)
+					for len(list) <= idx {
+						list = append(list, "null")
+					}
+					list[idx] = val
+					want := "[" + strings.Join(list, ", ") + "] " + itoa(len(list)) + "\n"
+					funcs := "function grow(x) { " + t.T + ".push(x); return " + t.T + ".length() }\n" +
+						"function grow2(x) { " + t.T + ".push(x); " + t.T + ".push(x); return " + t.T + ".length() }\n" +
+						"function shrink() { return " + t.T + ".pop() }\n" +
+						"function psh(l, v) { l.push(v); return l.length() }\n"
+					setup := t.setup
+					if setup != "" {
+						setup += "; "
+					}
+					prog := funcs + "{ " + setup + t.T + "[" + itoa(idx) + "] = " + strings.ReplaceAll(rh.text, "R", R) + "; print " + other + ", " + t.T + ".length() }\n"
+					w := want
+					emit(Case{ID: fmt.Sprintf("m%d.%d.%d.%s", ti, off, ri, R), Req: RunReq(prog, nil, []File{{Name: "in.json", Data: []byte(t.doc)}}, false),
+						Fields: []string{"class", "out"}, Meta: metaProg(prog, "input", t.doc, "want", w, "row", rh.text, "col", fmt.Sprintf("%s[len+%d]", t.T, off)), NonTrivial: c09NT,
+						Oracle: func(i Resp) string {
+							if i["class"] != "ok" {
+								return "ideal list: the store must succeed, implementation says " + i["class"] + " (" + i["msg"] + ")"
+							}
+							if got := string(i.Bytes("out")); got != w {
+								return fmt.Sprintf("ideal list (the index is resolved when the store happens, after the right-hand side ran): want %q, got %q", w, got)
+							}
+							return ""
+						}})
+				}
+			}
+		}
+	}
+}
+
+func init() {
+	register(Family{
+		Name: "store-after-rhs", Prop: "C15",
+		Rule: "index writes N[k] = RHS whose right-hand side changes the very array being written: k at the end / 1-3 past it / the last element / -1 / -length / before the start / fractional (relative to the length when the target is evaluated, also computed as M.length()+d), RHS pushing (push.length, chained pushes, the array into itself), popping (pop, popfirst, push then pop), sorting, storing past the end itself, through nested method calls on any alias, through user functions acting on the array's home name (a global, $.list, $.o.items, $.m[0], ob.items, w[0]: grow grow2x drop dropf srt swap fill) and through a parameter (psh); the store as a statement, as a printed assignment value, through a match binding, as op=; mixed with the ordinary operations of ops-ideal; every array with its length after each step. Systematic part: 10 kinds of target (variable, alias either way, $.q, $.o.items, $.m[0], alias of a document member, object member, w[-1], alias of an object member) x 4 offsets x 12 right-hand sides x receiver named by the target / the other alias, expected text written out from an ideal list with the index resolved when the store happens; oracle: ideal list (closed form / fam_c09.go interpreter); also compared with the model; non-trivial = distinct program ending ok or in a runtime error",
+		Gen: func(r *rand.Rand, tier string, emit func(Case)) {
+			c15StoreMatrix(emit)
+			n := tierN(tier, 900, 9000)
+			for i := 0; i < n; i++ {
+				steps := 1 + r.Intn(10)
+				mode := r.Intn(3)
+				p, doc, kinds := c15StoreSequence(r, mode, steps, chance(r, 0.3))
+				c15Emit(emit, p, doc, "mode", fmt.Sprint(mode), "steps", fmt.Sprint(steps), "rhs_kinds", fmt.Sprint(len(kinds)))
+			}
+		},
+	})
+}
